@@ -31,7 +31,7 @@ BOUND = {
     "thorough": "catalogue x 2 decorations + L(5,3); same other dimensions",
 }
 # as-built additions to the bound (kept next to BOUND so that the evidence reports them)
-BOUND = {k: v + "; plus: " + 'paths with upper-case / unknown / missing suffix; workbooks with extra sheets (misspelled, underscore-prefixed, unrelated, two at once) in every container' for k, v in BOUND.items()}
+BOUND = {k: v + "; plus: " + 'several separate blank row / column runs each within the limit (2-3 runs, together beyond it); paths with upper-case / unknown / missing suffix; workbooks with extra sheets (misspelled, underscore-prefixed, unrelated, two at once) in every container' for k, v in BOUND.items()}
 
 _TMP = None
 
@@ -211,6 +211,11 @@ def gen_shape(tier):
                     yield {"k": "shape", "fmt": fmt, "sheet": sheet, "what": "rows", "pos": pos, "n": n}
                 for n in (1, 19, 20, 21):
                     yield {"k": "shape", "fmt": fmt, "sheet": sheet, "what": "cols", "pos": pos, "n": n}
+            # several separate runs, each within the limit, together beyond it: every run is judged on its own
+            for ns in ([30, 31], [35, 35], [59, 60], [60, 60], [1, 60], [25, 25, 25], [60, 60, 60]):
+                yield {"k": "shape", "fmt": fmt, "sheet": sheet, "what": "rows-multi", "pos": "multi", "n": ns}
+            for ns in ([10, 11], [19, 20], [20, 20], [7, 7, 7], [20, 20, 20]):
+                yield {"k": "shape", "fmt": fmt, "sheet": sheet, "what": "cols-multi", "pos": "multi", "n": ns}
             for n in (1, 3):
                 yield {"k": "shape", "fmt": fmt, "sheet": sheet, "what": "trail-rows", "pos": "end", "n": n}
                 yield {"k": "shape", "fmt": fmt, "sheet": sheet, "what": "trail-cols", "pos": "end", "n": n}
@@ -361,7 +366,19 @@ def check_one(case):
         s, n, what = case["sheet"], case["n"], case["what"]
         t = tabs[s]
         nrows = len(t) - 1
-        if what in ("rows", "trail-rows"):
+        if what == "rows-multi":
+            width = len(t[0])
+            ats = [1, nrows, 1 + nrows // 2][:len(n)]
+            for at, k_ in sorted(zip(ats, n), reverse=True):
+                t[at:at] = [[None] * width for _ in range(k_)]
+                ref[s][at - 1:at - 1] = [{} for _ in range(k_)]
+        elif what == "cols-multi":
+            ncols = len(t[0])
+            ats = [1, ncols - 1, ncols // 2][:len(n)]
+            for at, k_ in sorted(zip(ats, n), reverse=True):
+                for row in t:
+                    row[at:at] = [None] * k_
+        elif what in ("rows", "trail-rows"):
             at = {"after-header": 1, "middle": 1 + nrows // 2, "before-last": nrows, "end": nrows + 1}[case["pos"]]
             width = len(t[0])
             t[at:at] = [[None] * width for _ in range(n)]
@@ -379,7 +396,7 @@ def check_one(case):
         src, _ = render.render(wb, case["fmt"], tabs)
         ref_wb = with_headers(ref)
         arg, kw, cleanup = deliver(src, case["fmt"], "bytes", True)
-        sig = f"shape:{case['fmt']}:{what}:{n}:{case['pos']}:{s}"
+        sig = f"shape:{case['fmt']}:{what}:{n if isinstance(n, int) else '+'.join(map(str, n))}:{case['pos']}:{s}"
     else:  # sheetcase
         wb = {s: [dict(r) for r in rows] for s, rows in NOISE_WB.items()}
         ren = (lambda x: x.title()) if case["case"] == "title" else (lambda x: x.upper())
